@@ -8,6 +8,7 @@ cut by the solver as soon as the guard of a call is unsatisfiable. Panics are
 collected as (guard, message) obligations. The harness (Python) builds symbolic
 inputs, calls real functions, and asks z3 whether `assumes ∧ ¬property` is satisfiable.
 """
+import os
 import time
 from contextlib import contextmanager
 
@@ -284,7 +285,9 @@ class Interp:
         self.bounds.append((c, msg))
 
     def wall_clock(self):
-        """SystemTime::now(): arbitrary non-decreasing millisecond readings"""
+        """SystemTime::now(): arbitrary non-decreasing millisecond readings (or the harness-controlled frozen reading)"""
+        if getattr(self, "wall_frozen", None) is not None:
+            return St("SystemTime", {"ms": I(self.wall_frozen, "u128")})
         t = self.fresh("wall")
         lo = self.wall if self.wall is not None else z3.IntVal(0)
         self.assume(z3.And(t >= lo, t < 2**62))
@@ -635,6 +638,11 @@ class Interp:
             v = self.block(item["block"], sc, cx, hint=rty)
             if cx.returned is False:
                 return v
+            live = band(self.g, bnot(cx.returned))
+            if live is not False and self.g is not True and cx.returned is not True and zbool(self.g).eq(zbool(cx.returned)):
+                live = False
+            if live is False or (live is not True and z3.is_false(z3.simplify(zbool(live)))):
+                return cx.ret       # every live path left through `return`: the tail value is never used
             if v is None or (isinstance(v, V.Unit) and not isinstance(cx.ret, V.Unit)):
                 return cx.ret       # the tail is a diverging expression (loop / return on every path)
             return ite(cx.returned, cx.ret, v)
@@ -1348,7 +1356,7 @@ class Interp:
             fields[n] = self.deref_unless_mutref(self.ev(fv["expr"], sc, cx, ty_simple(ftys.get(n))), ftys.get(n))
         rest = unsome(e.get("rest"))
         if rest is not None:
-            base = self.deref(self.ev(rest, sc, cx))
+            base = self.deref(self.ev(rest, sc, cx, (name, [])))
             for n, v in base.f.items():
                 fields.setdefault(n, v)
         if sd:
@@ -1540,6 +1548,9 @@ class Interp:
                     if it >= 1 and c is not True:
                         if not self.feasible(c):
                             break
+                        if os.environ.get("RSYM_DEBUG_LOOPS"):
+                            r_, m_ = self.check(band(self.g, c))
+                            print("loop", cx.fname, "iteration", it, "still feasible:", r_, str(simp_bool(c))[:300])
                     if it >= self.loop_bound:
                         if self.feasible(c):
                             raise BoundExceeded("loop bound %d reached in %s" % (self.loop_bound, cx.fname))
